@@ -213,6 +213,14 @@ def run(tier, seed):
     pairs = []
     for (k1, l1), (k2, l2) in itertools.permutations(sorted(reps.items()), 2):
         pairs.append((16, (k1, k2), [l1[len(l1) // 2], l2[-1]]))
+    # two elements of the same kind with different values in one request (state shared between the elements of a request)
+    for k, l in sorted(reps.items()):
+        vals = [l[0], l[len(l) // 2], l[-1]]
+        for a, b in itertools.permutations(range(len(vals)), 2):
+            if vals[a] != vals[b]:
+                pairs.append((16, (k, k), [vals[a], vals[b]]))
+        if len(set(vals)) == 3:
+            pairs.append((16, (k, k, k), vals))
     cp = comm_pool()
     for (k1, b1), (k2, b2) in itertools.permutations(cp, 2):
         pairs.append((8, (k1, k2), [b1, b2]))
@@ -235,7 +243,7 @@ def run(tier, seed):
         'rule': 'from bytes: %d extended communities (18 type codes x field boundary values), %d communities (all 11 well-known values + '
                 'boundary values), %d large communities (each field in {0,1,2^31,2^32-1}); each decoded by the agent, the text posted '
                 'to POST /v1/peer/<ip>/json_to_bin AND to POST /v1/peer/<ip>/send/update (which has its own copy of the text-to-value code; bytes read from the transport) in an Established 4-octet-AS session, the produced attribute compared by the reference '
-                'reading of the value and re-decoded; plus all ordered pairs of different kinds in one request. distinct = (attribute, '
+                'reading of the value and re-decoded; plus all ordered pairs of different kinds, and pairs / triples of the same kind with different values, in one request. distinct = (attribute, '
                 'kinds, symptom)' % (len(ext), len(cp), len(lp)),
         'samples': [{'attribute': it[0], 'kinds': list(it[1]), 'bytes': [b.hex() for b in it[2]]} for it in report.pick(items, seed, 3)],
         'singles': len(singles), 'pairs': len(pairs), 'exhaustive': True, 'violation_keys': summary,
